@@ -178,3 +178,14 @@ func (e *SyncedCachedEnforcer) checkManyAndRemoveCache(rules [][]string) (bool, 
 	}
 	return true, nil
 }
+
+// ClearPolicy clears all policy.
+func (e *SyncedCachedEnforcer) ClearPolicy() {
+	if atomic.LoadInt32(&e.enableCache) != 0 {
+		if err := e.cache.Clear(); err != nil {
+			e.logger.LogError(err, "clear cache failed")
+			return
+		}
+	}
+	e.SyncedEnforcer.ClearPolicy()
+}
